@@ -528,6 +528,46 @@ class BaseSegment(metaclass=SegmentMetaclass):
         """
         return ""
 
+    @staticmethod
+    def _is_spanned_template_placeholder(
+        segments: Sequence[BaseSegment], idx: int
+    ) -> bool:
+        """Is `segments[idx]` an empty template placeholder within another element?
+
+        A template tag which renders to nothing (an expression rendering an
+        empty string, a template comment or a block tag) in the middle of a
+        lexed element (e.g. inside a quoted literal) is placed by the lexer
+        *before* that element, although the element itself starts at an earlier
+        templated position. Such placeholders must not be used as position
+        references for their neighbours.
+        See: https://github.com/sqlfluff/sqlfluff/issues/6261
+        """
+        seg = segments[idx]
+        if not (
+            seg.pos_marker
+            and seg.is_type("placeholder")
+            and seg.raw == ""
+            and is_zero_slice(seg.pos_marker.templated_slice)
+            and not is_zero_slice(seg.pos_marker.source_slice)
+        ):
+            return False
+        if getattr(seg, "block_type", "") == "templated":
+            return True
+        # Template comments and block tags are found between elements much
+        # more often than within them. Only treat them as spanned if the
+        # next element really does start before them.
+        for later_seg in segments[idx + 1 :]:
+            if (
+                later_seg.pos_marker
+                and not later_seg.is_meta
+                and not later_seg.is_type("placeholder")
+            ):
+                return (
+                    later_seg.pos_marker.templated_slice.start
+                    < seg.pos_marker.templated_slice.start
+                )
+        return False
+
     @classmethod
     def _position_segments(
         cls,
@@ -573,7 +613,7 @@ class BaseSegment(metaclass=SegmentMetaclass):
 
                 # Search forward for the end point.
                 end_point = None
-                for fwd_seg in segments[idx + 1 :]:
+                for fwd_idx, fwd_seg in enumerate(segments[idx + 1 :], idx + 1):
                     if fwd_seg.pos_marker:
                         # Skip zero-length template placeholders (e.g. a Jinja
                         # variable {{ expr }} that rendered to an empty string).
@@ -584,13 +624,7 @@ class BaseSegment(metaclass=SegmentMetaclass):
                         # the unpositioned segment (e.g. a replacement whitespace
                         # gaining a source-slice that extends into the Jinja code).
                         # See: https://github.com/sqlfluff/sqlfluff/issues/6261
-                        if (
-                            fwd_seg.is_type("placeholder")
-                            and fwd_seg.raw == ""
-                            and is_zero_slice(fwd_seg.pos_marker.templated_slice)
-                            and not is_zero_slice(fwd_seg.pos_marker.source_slice)
-                            and getattr(fwd_seg, "block_type", "") == "templated"
-                        ):
+                        if cls._is_spanned_template_placeholder(segments, fwd_idx):
                             continue
                         # NOTE: Use raw segments because it's more reliable.
                         end_point = fwd_seg.raw_segments[
